@@ -20,7 +20,7 @@ def tasks(tier):
     for keyed in (0, 1):
         for chunk in ((0, 1, 7) if tier == 'quick' else (0, 1, 2, 5, 7, 12, 22, 23, 30, 45)):
             ts.append(Task('verifHarness_C10_reader', [keyed, chunk]))
-    ts += [Task('verifHarness_C14_read_failure', [busy]) for busy in (0, 1)]
+    ts += [Task('verifHarness_C14_read_failure', [busy]) for busy in (0, 1, 2, 3)]
     ts.append(Task('verifHarness_C10_write_failure_order', []))
     for keyed in (0, 1):
         for chunk in ((0, 5) if tier == 'quick' else (0, 1, 5, 13, 30, 40)):
